@@ -86,12 +86,17 @@ def regenerate(modules):
 # ----------------------------------------------------------------------------
 # real code
 
-def cmake_configure():
-    if os.path.exists(os.path.join(OPM_BUILD, "build.ninja")):
+OPM_BUILD_HARD = os.path.join(BUILD, "opm-hard")
+HARD_FLAGS = "-D_GLIBCXX_ASSERTIONS -fsanitize=undefined -fno-sanitize-recover=all"
+
+
+def cmake_configure(hard=False):
+    bdir = OPM_BUILD_HARD if hard else OPM_BUILD
+    if os.path.exists(os.path.join(bdir, "build.ninja")):
         return 0, ""
     os.makedirs(BUILD, exist_ok=True)
-    flags = f"-O1 -fopenmp -pthread -pipe -Wno-error -D{GUARD}"
-    cmd = ["cmake", "-G", "Ninja", "-S", REPO, "-B", OPM_BUILD, "-DCMAKE_BUILD_TYPE=None",
+    flags = f"-O1 -fopenmp -pthread -pipe -Wno-error -D{GUARD}" + (f" -g1 {HARD_FLAGS}" if hard else "")
+    cmd = ["cmake", "-G", "Ninja", "-S", REPO, "-B", bdir, "-DCMAKE_BUILD_TYPE=None",
            f"-DCMAKE_CXX_FLAGS={flags}", "-DBUILD_TESTING=OFF", "-DOPM_ENABLE_PYTHON=OFF",
            "-DOPM_ENABLE_EMBEDDED_PYTHON=OFF", "-DBUILD_EXAMPLES=OFF", "-DUSE_MPI=OFF",
            "-Dfmt_DIR=/root/miniconda/lib/cmake/fmt", "-DCMAKE_PREFIX_PATH=/root/miniconda"]
@@ -99,42 +104,51 @@ def cmake_configure():
     return rc, out
 
 
-def build_opm():
-    """Incremental out-of-tree build of libopmcommon.a from /repo's working tree (hooks on)."""
-    with Lock("opm"):
-        rc, out = cmake_configure()
+def build_opm(hard=False):
+    """Incremental out-of-tree build of libopmcommon.a from /repo's working tree (hooks on).
+    hard=True: second build tree with UBSan (-fno-sanitize-recover) and libstdc++ assertions
+    (bounds-checked operator[] on vector/string/array), used by the C20 check."""
+    with Lock("opm-hard" if hard else "opm"):
+        rc, out = cmake_configure(hard)
         if rc != 0:
             return False, out
-        rc, out, dt = run(["cmake", "--build", OPM_BUILD, "--target", "opmcommon", "-j", str(NCPU)])
+        rc, out, dt = run(["cmake", "--build", OPM_BUILD_HARD if hard else OPM_BUILD, "--target", "opmcommon", "-j", str(NCPU)])
         return rc == 0, out[-6000:]
 
 
 OPM_LIBS = ["-L/root/miniconda/lib", "-lfmt", "-lboost_system", "-lboost_filesystem", "-lcjson", "-fopenmp", "-lpthread"]
 
 
-def build_harness(name, extra_src=(), sanitize=False, extra_flags=()):
+def build_harness(name, extra_src=(), sanitize=False, extra_flags=(), hard=False):
     """Compile harness/<name>.cpp against the freshly built library.  The binary is cached by
     the hash of (sources, library mtime, flags)."""
     src = os.path.join(VERIF, "harness", name + ".cpp")
     outdir = os.path.join(BUILD, "harness")
     os.makedirs(outdir, exist_ok=True)
-    lib = os.path.join(OPM_BUILD, "lib", "libopmcommon.a")
+    bdir = OPM_BUILD_HARD if hard else OPM_BUILD
+    lib = os.path.join(bdir, "lib", "libopmcommon.a")
+    if hard:
+        extra_flags = tuple(extra_flags) + tuple(HARD_FLAGS.split()) + ("-g1",)
+        name_tag = name + "-hard"
+    else:
+        name_tag = name
     h = hashlib.sha256()
     for p in [src, os.path.join(VERIF, "harness", "common", "vh.hpp")] + list(extra_src):
         h.update(open(p, "rb").read())
     st = os.stat(lib)
     h.update(f"{st.st_mtime_ns}:{st.st_size}:{sanitize}:{extra_flags}".encode())
-    exe = os.path.join(outdir, f"{name}{'-san' if sanitize else ''}-{h.hexdigest()[:12]}")
+    tag = name_tag + ("-san" if sanitize else "")
+    exe = os.path.join(outdir, f"{tag}-{h.hexdigest()[:12]}")
     if os.path.exists(exe):
         return True, exe, ""
     for old in os.listdir(outdir):
-        if old.startswith(name + ("-san-" if sanitize else "-")) and (sanitize or not old.startswith(name + "-san")):
+        if re.fullmatch(re.escape(tag) + r"-[0-9a-f]{12}", old):
             try:
                 os.remove(os.path.join(outdir, old))
             except OSError:
                 pass
     cmd = ["g++", "-std=c++17", "-O1", "-g0", f"-D{GUARD}", "-fopenmp", "-I", os.path.join(VERIF, "harness"),
-           "-I", REPO, "-I", OPM_BUILD, "-I", os.path.join(OPM_BUILD, "include"), "-I", "/root/miniconda/include"]
+           "-I", REPO, "-I", bdir, "-I", os.path.join(bdir, "include"), "-I", "/root/miniconda/include"]
     if sanitize:
         cmd += ["-fsanitize=address,undefined", "-fno-sanitize-recover=all", "-fno-omit-frame-pointer"]
     cmd += list(extra_flags) + [src] + list(extra_src) + [lib] + OPM_LIBS + ["-o", exe]
@@ -154,7 +168,7 @@ def lake_build(targets):
 def props_theorems(prop):
     """Names of all theorems in Props/<prop>.lean (fully qualified)."""
     path = os.path.join(LEAN, "OpmVerif", "Props", prop + ".lean")
-    txt = open(path).read()
+    txt = strip_lean_comments(open(path).read())
     ns = re.search(r"^namespace\s+(\S+)", txt, re.M)
     prefix = ns.group(1) + "." if ns else ""
     return [prefix + m.group(1) for m in re.finditer(r"^theorem\s+([A-Za-z_][\w.']*)", txt, re.M)]
@@ -344,9 +358,10 @@ class Ctx:
         os.makedirs(outdir, exist_ok=True)
         rc, out, dt = run([exe] + [str(a) for a in args] + [outdir], timeout=timeout)
         if rc != 0:
+            kept = self._keep_current_input(outdir)
             self.tie_broken("harness", f"{os.path.basename(exe)} {label} exited {rc}: {out[-2000:]}")
-            self.violation(f"harness-crash.{label}", f"harness aborted (exit {rc}) — a signal or sanitizer abort in the real code is a result: {out[-800:]}",
-                           {"cmd": [exe] + [str(a) for a in args], "output": out[-4000:]})
+            self.violation(f"harness-crash.{label}", f"harness aborted (exit {rc}) — a signal or sanitizer abort in the real code is a result; killing input: {kept}; {out[-800:]}",
+                           {"cmd": [exe] + [str(a) for a in args], "killing_input": kept, "output": out[-4000:]})
             return False
         ops, impl, model = (os.path.join(outdir, x) for x in ("ops.txt", "impl.txt", "model.txt"))
         rc, err = run_driver(ops, model)
@@ -373,15 +388,28 @@ class Ctx:
             self._disagreements = getattr(self, "_disagreements", []) + dis
         return total == 0
 
-    def stage_property_mode(self, exe, args, label="prop", timeout=3000):
+    def _keep_current_input(self, outdir):
+        kept = []
+        for fn in sorted(os.listdir(outdir)) if os.path.isdir(outdir) else []:
+            if fn.startswith("current_input"):
+                dst = os.path.join(REPLAYS, f"{self.prop}-{time.strftime('%Y%m%d-%H%M%S')}-{fn}")
+                try:
+                    shutil.copy(os.path.join(outdir, fn), dst)
+                    kept.append(dst)
+                except OSError:
+                    pass
+        return kept
+
+    def stage_property_mode(self, exe, args, label="prop", timeout=3000, env=None):
         """Run the harness's property mode: it evaluates the property's own statement on the
         real code and writes FAIL lines `FAIL <key> <detail>` to prop.txt."""
         outdir = os.path.join(self.work, label)
         os.makedirs(outdir, exist_ok=True)
-        rc, out, dt = run([exe] + [str(a) for a in args] + [outdir], timeout=timeout)
+        rc, out, dt = run([exe] + [str(a) for a in args] + [outdir], timeout=timeout, env=env)
         if rc != 0:
-            self.violation(f"harness-crash.{label}", f"property-mode harness aborted (exit {rc}): {out[-800:]}",
-                           {"cmd": [exe] + [str(a) for a in args], "output": out[-4000:]})
+            kept = self._keep_current_input(outdir)
+            self.violation(f"harness-crash.{label}", f"property-mode harness aborted (exit {rc}) - a signal, sanitizer/assertion abort or timeout in the real code is a result; killing input: {kept}; output tail: {out[-800:]}",
+                           {"cmd": [exe] + [str(a) for a in args], "killing_input": kept, "output": out[-4000:]})
             return False
         fails = []
         pfile = os.path.join(outdir, "prop.txt")
